@@ -36,7 +36,7 @@ RULE = ('program trees of depth 0..4 (balanced and unbalanced, repetition counts
         'partial unrolling, neighbour unrolling, rejections); mode auto / single / advanced; wrong tuple lengths.  '
         'Half of the programs are built through create_program of Sequence/Repetition templates.  Thorough tier adds '
         'all trees with <= 4 nodes x repetition counts {1,2,3} x limits {1,2,3} and all trees with <= 3 nodes x counts '
-        '{1,2} x every volatile subset x limits.  Plus 14 DETERMINISTIC families (c16_families.py), one per input class '
+        '{1,2} x every volatile subset x limits.  Plus 15 DETERMINISTIC families (c16_families.py), one per input class '
         'the random stream is blind to: a once-played short table next to a repeated one (limits on the boundaries of '
         'every neighbour test); one long piece + one piece of 16..176 samples / not a multiple of 16, at every position, '
         'incl. never-played bad waveforms; X,Y,X / X,Y,Z,Y,X table and waveform patterns; marker levels (negative, '
@@ -48,7 +48,9 @@ RULE = ('program trees of depth 0..4 (balanced and unbalanced, repetition counts
         'offset / transformation; repeated pieces with the limits between #distinct and #entries (single, auto, advanced); '
         'float durations a hair beside an integer sample count (inside / outside the 1e-10 tolerance, a piece that rounds to 0); '
         'measurements on a node and its single child; the compiled-twice family and 10 % of the random direct builds '
-        'also with VOLATILE counts (property terms read back from the Loop).  Non-trivial = accepted program '
+        'also with VOLATILE counts (property terms read back from the Loop); round 5: a short table extended by a peeled '
+        'iteration of a short repeated neighbour and then by split_one_child (aliasing between neighbour tables, seed C16-8).  '
+        'Non-trivial = accepted program '
         'with more than one table entry or a restructured tree; distinct = canonical JSON of the case.')
 TRUSTED = [
     'Coq 8.16.1 kernel + vm_compute (no native_compute)',
@@ -442,7 +444,7 @@ def clean_case(tree, mn, mx, mode=None):
 
 def gen_cases(rng, tier, ctx):
     cases = []
-    n = 180 if tier == 'quick' else 6000
+    n = 180 if tier == 'quick' else 3000
     for _ in range(n):
         cases.append(gen_prog_case(rng, tier))
     # targeted: small limits around hand-picked restructuring situations
@@ -1077,10 +1079,17 @@ def py_spec(case, obs):
 def classify(case, obs):
     """known finding: in SINGLE mode the table length is not compared with min_seq_len (lower bound only: since the
     repair of setup_single_sequence_mode a table longer than max_seq_len is rejected, so a too LONG table is a
-    violation in either mode)"""
+    violation in either mode).  A case is filed under it only when the harness' OWN replay (c16_oracle: own decoder of
+    the uploaded words, own table player, own exact quantiser — no qupulse code, so a change of voltage_to_uint16 /
+    PlottableProgram / TaborSegment cannot agree with itself here) finds nothing else wrong: samples, markers, segment
+    limits and the upper table bound are all fine and the ONLY defect is a single-mode table shorter than min_seq_len"""
     if 'ok' in obs and not obs['ok']['advanced'] and obs.get('py_plays') is None and obs.get('py_tables') \
-            and all(len(t) <= case['cfg']['max'] for t in obs['ok']['seqs']):
-        return KF_SINGLE
+            and not obs.get('first_changed') \
+            and all(len(t) <= case['cfg']['max'] for t in obs['ok']['seqs']) \
+            and any(len(t) < case['cfg']['min'] for t in obs['ok']['seqs']):
+        from props import c16_oracle
+        if c16_oracle.own_replay(case, obs) is None:
+            return KF_SINGLE
     return None
 
 
@@ -1204,52 +1213,39 @@ def search_failing(ctx, broken):
 
 MANIFEST = {
     'level_text': 'Proof (Coq, unbounded in tree shape / counts / lengths / limits / channel assignment) over an '
-                  'executable model of TaborProgram.__init__ and everything it calls.  PROVED IN FULL: C16_plays — '
-                  'whenever the compiler model accepts a program (either mode, fixed or volatile counts at their '
-                  'current value), the emitted advanced table / sequencer tables / segments, played by an independent '
-                  'table player that decodes the uploaded binary layout, give exactly the quantised source program on '
-                  'both channels (14-bit codes, nearest, ties to even) and both markers (half rate); stages: '
-                  'restructuring (flatten_and_balance(2) + prepare preserve the played leaf sequence), index '
-                  'invariants of the three setdefault de-duplications (waveforms, sequencer tables, segments), segment '
-                  'packing, half-rate lemma.  Termination: prepare with an explicit measure, flatten_and_balance by an '
-                  'existence proof + fuel monotonicity + an explicit fuel bound; NEW: both fuel bounds are closed '
-                  'formulas of the SOURCE program (weighted sizes W and R of the unrolled tree: '
-                  'C16_prep_measure_closed, C16_compile_fuel_closed), more fuel never changes a result '
-                  '(C16_compile_fuel_mono), and within the bounds the fixed fuel of the evaluated model stands for '
-                  'unbounded loops (C16_compile_fixed_fuel_stable; 97 % of the quick cases are within the bounds, '
-                  'measured as fuel:within_closed_bounds).  C16_no_crash: for EVERY good program (counts >= 0) the model '
-                  'never fails with an unexpected exception type (was: counts >= 1; the zero-count AttributeError was '
-                  'repaired in /repo 23255f9 and is modelled as the TaborException ENoWaveform).  Limits: every emitted '
-                  'segment >= 192, multiple of 16; every table <= max_seq_len in both modes; >= min_seq_len in advanced '
-                  'mode (single mode refuted by witness = known finding, intended behaviour).  Stateful use (TaborProgram '
-                  'restructures its argument in place): every tree a first compilation can leave behind (returned or '
-                  'raised; left_behind) is in the input domain again and plays the same leaves, so an accepted second '
-                  'compilation with any configuration plays the ORIGINAL specification (C16_recompile_plays_any); the '
-                  'executable model of the in-place effect (tree_after) is compared with the real Loop object.  '
-                  'Source tie: the 53 if / elif / while / assert tests (and predicate results) of _check_merge_with_next, '
-                  '_check_partial_unroll, prepare_program_for_advanced_sequence_mode, _calc_sampled_segments, '
-                  'TaborProgram.__init__, setup_single / setup_advanced_sequence_mode (tabor.py), '
-                  'Loop.flatten_and_balance and Loop._has_single_child_that_can_be_merged (loop.py) are '
-                  'translated from the current source on every run (translate/py2gallina_c16.py, fail-closed) and the '
-                  'model functions are proved equal to skeletons that take all their decisions from the translated '
-                  'tests (C16_source_*).  ROUND 4: the BOOKKEEPING of parse_aseq_program and parse_single_seq_program is '
-                  'translated statement by statement (FuncStateTranslator: mutable locals -> a record threaded through one '
-                  'Fixpoint per for loop, OrderedDict -> association list) and proved equal to the model parsers on every '
-                  'input incl. the error cases (C16_source_parse_aseq, C16_source_parse_single, all jump flags 0); '
-                  'Loop.split_one_child: the model choice of the child is the reverse scan of the source with break and '
-                  'for-else over its generated tests (C16_source_split_one_child).  C16_spec_cached_eq: the '
-                  'evaluation form of the specification used by the check equals the specification.  Tie to /repo: '
-                  'exact correspondence check (segments as uploaded binary, tables, mode, accept/reject) and the '
-                  'specification evaluated by Coq on the implementation\'s tables on every case, PlottableProgram as a second '
-                  'table player on every accepted case, random stream + 14 deterministic families for input classes the '
-                  'random stream cannot reach (round 4: same source on both outputs, repeats vs limits, near-integer '
-                  'lengths, joined measurements, volatile trees compiled twice).',
+                  'executable model of TaborProgram.__init__ and everything it calls.  PROVED ON THE MODEL, per clause '
+                  '(notes/C16.md "Clause map"): (S1, S2) C16_plays — whenever the compiler model accepts a program (either '
+                  'mode, fixed or volatile counts at their current value), the emitted advanced table / sequencer tables / '
+                  'segments, played by a table player that decodes the uploaded words and calls nothing of the compiler, '
+                  'give exactly the quantised source program on both channels and both markers (half rate); hypotheses: '
+                  'counts >= 0, exact integer piece lengths, objects of one equality class have equal data (round 5, '
+                  'C16_plays_used_channels: on the USED channels only); the code is a nearest integer to '
+                  '(v-off+amp)/(2amp)*16383, ties to even, defined exactly in range (C16_code_is_nearest, '
+                  'C16_code_defined_iff_in_range).  (S3, S4) C16_limits: every emitted segment >= 192 and a multiple of 16, '
+                  'every table <= max_seq_len in both modes, >= min_seq_len in advanced mode (single mode refuted by '
+                  'witness = known finding, intended behaviour).  (S5) C16_accepts_or_rejects (round 5, replaces the '
+                  'tautological C16_reject): within the two closed fuel bounds the model either emits tables that play the '
+                  'specification and respect the limits or returns a proper error (never the unexpected-exception / fuel '
+                  'result); C16_no_crash for every fuel; C16_left_behind_ok: the Loop a (possibly failed) compilation '
+                  'leaves behind plays the same leaves, so a second compilation plays the ORIGINAL specification '
+                  '(C16_recompile_plays_any).  Termination of both restructuring loops with closed fuel bounds.  Source '
+                  'tie: the 53 if / elif / while / assert tests of the Tabor compiler and of Loop.flatten_and_balance / '
+                  '_has_single_child_that_can_be_merged / split_one_child and the statement-by-statement bookkeeping of both '
+                  'parsers are translated from the current source on every run (translate/py2gallina_c16.py, fail-closed) '
+                  'and proved equal to the model (C16_source_*).  PARTIAL: voltage transformations are affine maps only. '
+                  'TESTED ONLY: piece lengths within the 1e-10 tolerance of an integer, binary64 rounding of numpy (dyadic '
+                  'inputs), the actions of the restructuring on the Loop objects.  NOT COVERED: limits of the advanced '
+                  'table / of repetition counts, the instrument driver.  Tie to /repo: exact correspondence check '
+                  '(segments as uploaded binary, tables, mode, accept/reject, tree left behind) and the specification '
+                  'evaluated by Coq on the implementation\'s tables on every case; PlottableProgram as a second player; '
+                  'random stream + 15 deterministic families for input classes the random stream cannot reach.',
     'level_note': 'Trusted: Coq kernel, harness, numpy float exactness on dyadic inputs, Waveform equality classes and '
-                  'get_sampled (inputs of the model / compared through the spec; hypothesis of C16_plays: equal class '
-                  '=> equal data, exact sample counts), affine voltage transformations only; volatile counts are a '
-                  'flag + current value (updates are C15); programs beyond the two closed fuel bounds (3 % of the quick '
-                  'cases) are covered by C16_plays_total (some fuel suffices) and the correspondence check, not by the '
-                  'fixed-fuel theorem; the instrument driver is not importable and not covered.',
+                  'get_sampled (inputs of the model / compared through the spec), the binary layout assumed by the table '
+                  'player; volatile counts are a flag + current value (updates are C15); programs beyond the two closed '
+                  'fuel bounds (3 % of the quick cases) are covered by C16_plays_total (some fuel suffices) and the '
+                  'correspondence check, not by the fixed-fuel theorems.  The Python-side oracle quantises with the '
+                  'repository\'s voltage_to_uint16 (blind to its changes); the Coq check_spec and the known-finding '
+                  'predicate (own replay, c16_oracle.py) do not.',
     'technique': 'Coq proof (translation validation of an executable compiler model, invariants over the parse folds, '
                  'termination with closed bounds) + correspondence check + PlottableProgram replay oracle',
     'design_ref': 'DESIGN.md §5 C16',
